@@ -445,7 +445,7 @@ func keepObligation(o *Obligation, s Sel) bool {
 			return false
 		}
 	}
-	if len(s.OnlyTags) > 0 && (o.Kind == "post" || o.Kind == "inv-entry" || o.Kind == "inv-step") && len(o.Tags) > 0 {
+	if len(s.OnlyTags) > 0 && (o.Kind == "post" || o.Kind == "inv-entry" || o.Kind == "inv-step" || o.Kind == "inv-transition" || o.Kind == "inv-derived" || o.Kind == "callsite") && len(o.Tags) > 0 {
 		ok := false
 		for _, t := range o.Tags {
 			for _, w := range s.OnlyTags {
